@@ -50,6 +50,14 @@ def writeStep (retStored : Bool) (s : NameSet) (req : NameObj) : NameSet × Name
   let s' := insertIfAbsent s req
   (s', if retStored then (lookup s' req.str).getD req else req)
 
+/-- the double-checked form of the second step: look the name up again under the write lock; hand out the
+    stored element if another thread got in between, otherwise insert and hand out the requested name.
+    This IS `writeStep true` (`recheck_is_writeStep_true`), so every theorem covers it. -/
+def writeStepRecheck (s : NameSet) (req : NameObj) : NameSet × NameObj :=
+  match lookup s req.str with
+  | some e => (s, e)
+  | none => (req :: s, req)
+
 /-- `get` with nothing in between its two steps (the sequential build; a single worker) -/
 def getAtomic (retStored : Bool) (s : NameSet) (req : NameObj) : NameSet × NameObj :=
   match lookup s req.str with
